@@ -1,4 +1,5 @@
 import Pcore.Proofs.LoaderConc
+import Pcore.Proofs.LoaderConcDisc
 import Pcore.Model.Lockset
 import Pcore.Generated.Locksets
 import Pcore.Proofs.LazyCache
@@ -70,8 +71,10 @@ Full statement / proved / missing
   the four guarded package-level queues regenerated from the Go sources satisfies the escape discipline (`decide`);
   `C13_queue_cfg_of_table` — ANY table satisfying it configures the model with the `fresh` variant, hence
   `C13_queue_impl_exactly_once`.
+  `C13_discover_sandwich` (with `C13_discover_answer`) — the answer of a concurrent discovery contains every name the
+      sequential discovery answered when the operation began and only names it answers when the operation ends.
 * missing (stated, not hidden): what `Resolve` does inside (its lookups through the loader), the mappings / constructor /
-  function queues as executable models (their sites are in the table); the answer of a concurrent `Discover`; the instantiator's nested lookups, parse errors and
+  function queues as executable models (their sites are in the table); the instantiator's nested lookups, parse errors and
   type sets of file-based loading; nested containers and the other read paths (hash keys, type checks) of shared values; the Go memory model,
   the real scheduler, torn reads and `-race` findings cannot be exhibited by an interleaving model at all — the lock-set
   table is syntactic and trusted.
@@ -143,6 +146,47 @@ theorem C13_load_answer (s : Sys) (t : Thread) (l : Nat) (n : Name) (st : WalkSt
     | none => exact Or.inr rfl
     | some o => exact Or.inl ⟨_, rfl⟩
   | foundAt nones x v => exact Or.inl ⟨_, rfl⟩
+
+/-- the answer of a concurrent discovery: when a discovery is at its last level, what it is about to answer contains every
+    name the sequential discovery (C12: `discC`) answered in the state `snap` in which the operation began, and only names
+    the sequential discovery answers in the current state — and `snap` is a past of the current state (every binding of
+    it is still there).  No single moment need give exactly this answer (known finding C13-chain-walk-not-atomic). -/
+theorem C13_discover_sandwich (ps : List (Option Nat)) (progs : List (List Op)) (c : Config)
+    (hr : Reachable (Config.init ps progs) c) (t : Thread) (ht : t ∈ c.th) (l : Nat) (p : Key → Bool) (x : Nat)
+    (passed : List Nat) (found : List Key) (snap : Sys) (hpc : t.pc = .discWalk l p [x] passed found snap) :
+    Mono snap c.sh ∧
+    (∀ k, k ∈ discC snap.es p (chain c.sh.ps l) → k ∈ discLevel c.sh.es x found p) ∧
+    (∀ k, k ∈ discLevel c.sh.es x found p → k ∈ discC c.sh.es p (chain c.sh.ps l)) := by
+  obtain ⟨_, hwf, hd⟩ := DInv_reachable (DInv_init ps progs) hr
+  have hd := hd t ht
+  rw [hpc] at hd
+  obtain ⟨h1, h2, h3, h4, h5⟩ := hd
+  have hch : ∀ y, y ∈ chain c.sh.ps l ↔ y ∈ passed ∨ y = x := by
+    intro y
+    rw [← List.mem_reverse, h1]
+    simp
+  refine ⟨h4, ?_, ?_⟩
+  · intro k hk
+    obtain ⟨hp, a, ha, hb⟩ := (mem_discC snap h5 p _ k).mp hk
+    rw [mem_discLevel c.sh hwf]
+    rcases (hch a).mp ha with ha | rfl
+    · exact Or.inl (h3 a ha k hp hb)
+    · by_cases hf : k ∈ found
+      · exact Or.inl hf
+      · exact Or.inr ⟨isSome_mono h4 hb, hf, hp⟩
+  · intro k hk
+    rw [mem_discC c.sh hwf]
+    rcases (mem_discLevel c.sh hwf x found p k).mp hk with hk | ⟨hb, _, hp⟩
+    · obtain ⟨hp, y, hy, hb⟩ := h2 k hk
+      exact ⟨hp, y, (hch y).mpr (Or.inl hy), hb⟩
+    · exact ⟨hp, x, (hch x).mpr (Or.inr rfl), hb⟩
+
+/-- … and that is the answer the next step logs -/
+theorem C13_discover_answer (s : Sys) (t : Thread) (l : Nat) (p : Key → Bool) (x : Nat) (passed : List Nat) (found : List Key)
+    (snap : Sys) (hpc : t.pc = .discWalk l p [x] passed found snap) :
+    (stepThread s t).2.log = t.log ++ [(.keys (discLevel s.es x found p), none)] := by
+  unfold stepThread
+  rw [hpc]
 
 /-! ### the full statement: sequential consistency with respect to the C12 model -/
 
@@ -218,6 +262,19 @@ def agreeConfig : Config :=
   execute [none, some 0] [[.define 0 na (.ty 1)], [.load 1 nA], [.get 0 na, .load 0 na]] [0, 1, 2, 1, 2, 1]
 example : (agreeConfig.th.map fun t => t.log.map (·.2)) =
     [[none], [some (0, canon na, .ty 1)], [some (0, canon na, .ty 1), some (0, canon na, .ty 1)]] := by decide +kernel
+
+-- non-vacuity of C13_discover_sandwich, strictly between: thread 0 discovers through loader 1 and has passed level 0 (empty)
+-- when thread 1 defines `b` in loader 0 and `a` in loader 1; parked at its last level it is about to answer [a] — the
+-- sequential answer was [] when it began and is [a, b] now
+def nb : Name := ⟨runtimeAuthority, "type", "b"⟩
+def discConfig : Config :=
+  runSched (Config.init [none, some 0] [[.discover 1 fun _ => true], [.define 0 nb (.ty 1), .define 1 na (.ty 2)]]) [0, 0, 1, 1]
+def discView (t : Thread) : Option (Nat × List Nat × List Key × List Key) :=
+  match t.pc with
+  | .discWalk l p [x] passed _ snap => some (x, passed, discC snap.es p (chain snap.ps l), discC discConfig.sh.es p (chain snap.ps l))
+  | _ => none
+example : discConfig.th.map discView = [some (1, [0], [], [canon na, canon nb]), none] ∧
+    ((stepAt discConfig 0).th.map fun t => t.log.map (·.1)) = [[.keys [canon na]], [.ok, .ok]] := by decide +kernel
 
 /-- before fix e398ee4 ("a nil re-definition is a no-op"): offering the placeholder over a Type that another goroutine
     defined inside the miss window went on to the type assertion `nv.(px.Type)` on a nil value -/
